@@ -317,6 +317,21 @@ def run(tier, seed, engines, job):
                 f.write(xml_template(vp, os.path.join(scratch, "out"), 5, tri, "0.45"))
             work.append(("vtk:" + name, desc, xp))
             idx += 1
+    # the same value mutations with the initial triangulation switched on (polygonal cube): hostile edge lengths, cut-offs ... then
+    # reach the sampling grids and the ball pivoting instead of stopping at the reader
+    poly_vtk = os.path.join(scratch, "valid_poly.vtk")
+    with open(poly_vtk, "w") as f:
+        f.write(VTK_POLY_CUBE)
+    text = xml_template(poly_vtk, os.path.join(scratch, "out"), n_types=5, triangulate=1, lmin="0.45")
+    num_end = text.index("</numerical_parameters>")
+    for desc, mut in xml_mutants(text[:num_end]):
+        if not desc.startswith("<") or "self-closing" in desc:
+            continue
+        xp = os.path.join(scratch, "m%06d.xml" % idx)
+        with open(xp, "w") as f:
+            f.write(mut + text[num_end:])
+        work.append(("xml:triangulated", desc, xp))
+        idx += 1
     for name, kw in xml_templates:
         text = xml_template(valid_vtk, os.path.join(scratch, "out"), **kw)
         for desc, mut in xml_mutants(text):
